@@ -55,10 +55,13 @@ mod monitor {
     pub(super) struct Mon {
         /// number of threads currently blocked in a *timed* wait
         pub sleepers: usize,
+        /// how many of them went to sleep before the last clock change and have not yet woken
+        /// up to look at the new time
+        pub stale: usize,
     }
 
     loom::lazy_static! {
-        static ref MON: Mutex<Mon> = Mutex::new(Mon { sleepers: 0 });
+        static ref MON: Mutex<Mon> = Mutex::new(Mon { sleepers: 0, stale: 0 });
         static ref CV: Condvar = Condvar::new();
     }
 
@@ -96,8 +99,9 @@ pub mod time {
             let k = READS.fetch_add(1, Ordering::SeqCst);
             if k == JUMP_AT.load(Ordering::SeqCst) {
                 // a deadline that expires between two instructions of the code under test
-                let g = monitor::lock();
+                let mut g = monitor::lock();
                 NOW_NS.fetch_add(JUMP_NS.load(Ordering::SeqCst), Ordering::SeqCst);
+                g.stale = g.sleepers;
                 monitor::notify_all();
                 drop(g);
             }
@@ -155,20 +159,22 @@ pub mod time {
 
     /// Harness: move time forward and wake every timed sleeper.
     pub fn advance(d: Duration) {
-        let g = monitor::lock();
+        let mut g = monitor::lock();
         NOW_NS.fetch_add(d.as_nanos() as u64, Ordering::SeqCst);
+        g.stale = g.sleepers;
         monitor::notify_all();
         drop(g);
     }
 
-    /// Harness: block until some thread sleeps in a timed wait, then move time forward (a timer
-    /// that expires while the thread is asleep). Returns false if `give_up` becomes true first
-    /// (checked whenever the monitor is signalled).
+    /// Harness: block until some thread sleeps in a timed wait *having seen the current time*,
+    /// then move time forward (a timer that expires while the thread is asleep). Returns false
+    /// if `give_up` becomes true first (checked whenever the monitor is signalled).
     pub fn advance_when_idle(d: Duration, give_up: impl Fn() -> bool) -> bool {
         let mut g = monitor::lock();
         loop {
-            if g.sleepers > 0 {
+            if g.sleepers > 0 && g.stale == 0 {
                 NOW_NS.fetch_add(d.as_nanos() as u64, Ordering::SeqCst);
+                g.stale = g.sleepers;
                 monitor::notify_all();
                 return true;
             }
@@ -202,6 +208,7 @@ pub mod time {
                 monitor::notify_all();
                 g = monitor::wait(g);
                 g.sleepers -= 1;
+                g.stale = g.stale.saturating_sub(1);
             } else {
                 g = monitor::wait(g);
             }
